@@ -153,7 +153,7 @@ def r11c(ck, fb):
     r = ck.body(NA + 'remove_instance', 'R11c')
     if r:
         cs = r.calls(re.escape(NA + 'remove_client_instance_key') + '$')
-        ck.require(len(cs) == 1, 'R11c', 'remove_instance:forgets-owner', r.where(), 'a removed instance stays in its owner\'s reverse set')
+        ck.require(len(cs) >= 1, 'R11c', 'remove_instance:forgets-owner', r.where(), 'a removed instance stays in its owner\'s reverse set')
         for s in cs:
             f = cfg.origin_fields(r, s.args[1])
             t = Taint(r, place_src=field_place_src('client_id'))
@@ -289,7 +289,7 @@ def r11e(ck, fb):
     if not up:
         return
     ls = [l for l in range(1, up.argc + 1) if up.local_name(l) == 'instance']
-    ck.require(len(ls) == 1, 'R11e', 'update_instance:instance-param', up.where(), 'parameter `instance` not found')
+    ck.require(len(ls) >= 1, 'R11e', 'update_instance:instance-param', up.where(), 'parameter `instance` not found')
     if len(ls) != 1:
         return
     inst = ls[0]
